@@ -340,23 +340,33 @@ func (w *World) LockAndCheckWipe(lockOp func() error, st Stats) (*Diff, error) {
 			return df("c05:not-wiped:privKeyCache", "after locking, cached derived private key %q is not zeroed", n), err
 		}
 	}
-	after := w.M.VerifSecretBuffers()
-	for n, b := range after.Bytes {
-		if !allZero(b) {
-			return df("c05:live-secret-while-locked", "locked manager still holds clear-text %q", n), err
-		}
-	}
-	if len(after.ExtKeys) > 0 {
-		for n := range after.ExtKeys {
-			return df("c05:live-secret-while-locked", "locked manager still holds account private key %q", n), err
-		}
-	}
-	if len(after.CacheKeys) > 0 {
-		for n := range after.CacheKeys {
-			return df("c05:live-secret-while-locked", "locked manager still caches derived private key %q", n), err
-		}
+	if d := w.LiveSecrets(st); d != nil {
+		return d, err
 	}
 	st["c05-nonzero-buffers-seen-wiped"] += nonzero
-	st["c05-other-script-cleartext-observed(O-3)"] += len(after.OtherScripts)
 	return nil, err
+}
+
+// LiveSecrets demands that a locked manager holds no clear-text key material
+// (verif hook over every tracked buffer).
+func (w *World) LiveSecrets(st Stats) *Diff {
+	after := w.M.VerifSecretBuffers()
+	var names []string
+	for n := range after.Bytes {
+		names = append(names, n)
+	}
+	sort.Strings(names)
+	for _, n := range names {
+		if !allZero(after.Bytes[n]) {
+			return df("c05:live-secret-while-locked", "locked manager still holds clear-text %q", n)
+		}
+	}
+	for n := range after.ExtKeys {
+		return df("c05:live-secret-while-locked", "locked manager still holds account private key %q", n)
+	}
+	for n := range after.CacheKeys {
+		return df("c05:live-secret-while-locked", "locked manager still caches derived private key %q", n)
+	}
+	st["c05-other-script-cleartext-observed(O-3)"] += len(after.OtherScripts)
+	return nil
 }
